@@ -108,6 +108,7 @@ def decide(h, meta, cfg):
         import traceback
         r['verdict'] = 'error'
         r['detail'] = f'{type(e).__name__}: {e}\n' + traceback.format_exc()[-1500:]
+    r.pop('_wit', None)
     r['wall_s'] = round(time.time() - t0, 2)
     return r
 
@@ -178,25 +179,11 @@ def _decide(h, meta, cfg, r):
             pins = []
             wit = _reach_witness(h, work, cfg['seed'])
             if wit is not None:
-                import struct
-                pl = []
-                for k, (_, fr) in wit['f64'].items():
-                    if UFPFX + 'in_f64' not in it.funret:
-                        break
-                    if mode == 'R':
-                        lit = f'(/ {abs(fr.numerator)}.0 {fr.denominator}.0)'
-                        lit = lit if fr >= 0 else f'(- {lit})'
-                    else:
-                        bits = struct.unpack('<Q', struct.pack('<d', float(fr)))[0]
-                        lit = f'((_ to_fp 11 53) #x{bits:016x})' if mode == 'B' else f'#x{bits:016x}'
-                    pl.append(f'(assert (= ({UFPFX}in_f64 (_ bv{k} 32)) {lit}))')
-                if UFPFX + 'in_u64' in it.funret:
-                    for k, val in wit['u64'].items():
-                        pl.append(f'(assert (= ({UFPFX}in_u64 (_ bv{k} 32)) #x{val:016x}))')
+                pl = _pins_for(mode, wit, it)
                 if pl:
                     pins.append(pl)
                     if wit.get('native') == 'PASS':
-                        r['_pin_pass'] = pl
+                        r['_wit'] = wit
                 r['reach_witness'] = 'native'
             v = None
             for pl in pins + [[]]:
@@ -230,7 +217,12 @@ def _decide(h, meta, cfg, r):
                     return
                 # harness end unreachable: either the machinery is inconsistent or the code under test fails
                 # (panics) on every admitted input. The main query tells which: a reproduced model is a violation.
-        if r.get('_pin_pass') and main and 'translator_check' not in r and h['kind'] == 'normal':
+        # (not under U: there a sat answer is an artefact of the abstraction, not a disagreement)
+        # (nor when uninterpreted functions other than sqrt occur: a pinned input does not pin their values)
+        ufs = [k for k in it.apps if k != 'sqrt']
+        if r.get('_wit') and main and 'translator_check' not in r and h['kind'] == 'normal' and mode != 'U' and ufs:
+            r['translator_check'] = 'skipped (uninterpreted functions: ' + ' '.join(sorted(ufs)[:6]) + ')'
+        if r.get('_wit') and main and 'translator_check' not in r and h['kind'] == 'normal' and mode != 'U':
             tl = [d for d, t in vc.disj if t == 'TOL']
             ex = [d for d, t in vc.disj if t == 'EXACT']
             props = [d for d, t in vc.disj if t == 'prop']
@@ -240,7 +232,7 @@ def _decide(h, meta, cfg, r):
             elif ex:
                 goal += ex
             if goal:
-                q = lines + r['_pin_pass'] + [f'(assert (or {" ".join(goal)} false))', '(check-sat)']
+                q = lines + _pins_for(mode, r['_wit'], it) + [f'(assert (or {" ".join(goal)} false))', '(check-sat)']
                 v, o, s = engine.run_solver(q, min(cap, 30), cfg['seed'])
                 r['queries'] += 1
                 r['solver_s'] += s
@@ -250,9 +242,10 @@ def _decide(h, meta, cfg, r):
                 if v == 'sat':
                     r['verdict'] = 'error'
                     r['detail'] = 'translator validation failed: on an input where the native run meets every obligation the encoding reports a violation'
-                    r.pop('_pin_pass', None)
+                    r.pop('_wit', None)
                     return
-        r.pop('_pin_pass', None)
+        if mode != 'U':
+            r.pop('_wit', None)
         if h['kind'] != 'mustpanic' and it.extra_obligations:
             main = [d for d, t in vc.disj if t in ('prop', 'EXACT')] + it.extra_obligations
             r['extra_obligations'] = len(it.extra_obligations)
@@ -387,6 +380,25 @@ def _decide(h, meta, cfg, r):
 def pinned_value(k, variant):
     num = (k * 37 + 11) % 101 + 8 if variant == 0 else -((k * 53 + 7) % 89) - 3
     return num
+
+
+def _pins_for(mode, wit, it):
+    """assertions that pin every input to the values of a native witness, in the literal syntax of the mode"""
+    import struct
+    pl = []
+    if UFPFX + 'in_f64' in it.funret:
+        for k, (_, fr) in wit['f64'].items():
+            if mode == 'R':
+                lit = f'(/ {abs(fr.numerator)}.0 {fr.denominator}.0)'
+                lit = lit if fr >= 0 else f'(- {lit})'
+            else:
+                bits = struct.unpack('<Q', struct.pack('<d', float(fr)))[0]
+                lit = f'((_ to_fp 11 53) #x{bits:016x})' if mode == 'B' else f'#x{bits:016x}'
+            pl.append(f'(assert (= ({UFPFX}in_f64 (_ bv{k} 32)) {lit}))')
+    if UFPFX + 'in_u64' in it.funret:
+        for k, val in wit['u64'].items():
+            pl.append(f'(assert (= ({UFPFX}in_u64 (_ bv{k} 32)) #x{val:016x}))')
+    return pl
 
 
 def _candidates(seed, n=40, hint=None):
